@@ -498,6 +498,65 @@ def run_triples(spec):
     return dict(nt=ntrue >= 1 and len(set(map(repr, vs))) >= 2, cls=cls)
 
 
+# ----------------------------------------------------------------------------- large values (size-dependent paths)
+
+_large = st.fixed_dictionaries(dict(kind=st.sampled_from(['list', 'tuple', 'arr_f', 'arr_i', 'arr_o', 'arr_2d', 'series', 'df', 'dict', 'list_of_lists']),
+                                    n=st.sampled_from([40, 64, 100, 128, 257]), nan_every=st.sampled_from([0, 1, 3, 7]), pos=st.integers(0, 10 ** 6),
+                                    how=st.sampled_from(['cell', 'cell', 'cell_to_nan', 'drop_last'])))
+
+
+def _large_spec(kind, n, nan_every, pos=None, how=None):
+    def cell(i):
+        if nan_every and i % nan_every == 0 and kind not in ('arr_i',):
+            return ['nan', i % 2]
+        return float(i % 5) if kind != 'arr_i' else i % 5
+    if kind in ('arr_2d', 'df'):
+        n = n - n % 2
+        if how == 'drop_last':
+            how = 'cell'        # dropping one cell of a 2-column block is not expressible; change a cell instead
+    cells = [cell(i) for i in range(n)]
+    if pos is not None:
+        i = pos % n
+        if how == 'drop_last':
+            cells = cells[:-1]
+        elif how == 'cell_to_nan' and kind != 'arr_i' and not (isinstance(cells[i], list)):
+            cells[i] = ['nan', 0]
+        else:
+            cells[i] = 9.5 if kind != 'arr_i' else 9
+    m = len(cells)
+    if kind in ('list', 'tuple'):
+        return [kind, cells]
+    if kind == 'arr_f':
+        return ['arr', 'float64', [m], cells]
+    if kind == 'arr_i':
+        return ['arr', 'int64', [m], cells]
+    if kind == 'arr_o':
+        return ['arr', 'object', [m], cells]
+    if kind == 'arr_2d':
+        m2 = m - m % 2
+        return ['arr', 'float64', [m2 // 2, 2], cells[:m2]]
+    if kind == 'series':
+        return ['series', ['range', m], cells, 'float64']
+    if kind == 'df':
+        m2 = m - m % 2
+        return ['df', ['range', m2 // 2], ['a', 'b'], [cells[2 * r:2 * r + 2] for r in range(m2 // 2)]]
+    if kind == 'dict':
+        return ['dict', [['k%03i' % i, c] for i, c in enumerate(cells)]]
+    return ['list', [['list', cells[i:i + 4]] for i in range(0, m, 4)]]
+
+
+def run_large(spec):
+    vx = _large_spec(spec['kind'], spec['n'], spec['nan_every'])
+    vm = _large_spec(spec['kind'], spec['n'], spec['nan_every'], spec['pos'], spec['how'])
+    x, c, m = build(vx, Env()), build(vx, Env()), build(vm, Env())
+    what = '%s of %i cells (NaN every %i)' % (spec['kind'], spec['n'], spec['nan_every'])
+    check(_eq('%s, itself' % what, x, x), 'eq(x, x) is False for a %s', what)
+    check(_eq('%s, structural copy' % what, x, c) and _eq('structural copy, %s' % what, c, x), 'eq(x, copy of x) is False for a %s', what)
+    check(not _eq('%s, one change (%s)' % (what, spec['how']), x, m) and not _eq('one change, %s' % what, m, x),
+          'eq is True for a %s and the same with one change (%s at %s)', what, spec['how'], spec['pos'] % spec['n'])
+    return dict(nt=True, cls=['kind=' + spec['kind'], 'n=%i' % spec['n'], 'nan' if spec['nan_every'] else 'nan_free', 'how=' + spec['how']])
+
+
 _pair = st.one_of(
     st.tuples(_value, _value).map(lambda t: dict(x=t[0], y=t[1], mut=None)),
     st.tuples(_value, st.integers(0, 10 ** 6)).map(lambda t: dict(x=t[0], y=None, mut=t[1])),
@@ -572,6 +631,10 @@ SUBS = [
         rule='triples (x, d1(x), d2(x)) with d in {copy, value-equal twin, double twin, near miss, unrelated}; all 9 eq values; symmetry, reflexivity and transitivity. '
              'non-trivial = at least one equal pair of differently written values',
         floor=0.15),
+    Sub('large', lambda tier: _large, run_large, quick=400, thorough=3000,
+        rule='lists, tuples, arrays (float/int/object, 1-d and 2-d), Series, DataFrames, dicts and lists of lists with 40-257 cells and NaN at every k-th cell: '
+             'eq(x, structural copy) must be True and one changed / NaN-ed / dropped cell must make it False (size-dependent paths)',
+        floor=0.5),
     EnumSub('pool_cube', enum_pool, run_pool, thorough_only=False, chunks=1,
             rule='the full %i x %i eq matrix of a fixed pool against structural copies, then every triple for transitivity (%i triples) - exhaustive' % (len(POOL), len(POOL), len(POOL) ** 3)),
 ]
